@@ -10,6 +10,7 @@ import (
 	"os"
 	"path/filepath"
 	"sort"
+	"strings"
 
 	"foxverif/hist"
 	"foxverif/kit"
@@ -47,6 +48,7 @@ func main() {
 			run.Count("corpus_cases", 1)
 		}
 	}
+	deep(run)
 	n := run.Pick(2000, 60000)
 	ops := run.Pick(60, 120)
 	const per = 20
@@ -61,6 +63,40 @@ func main() {
 			hist.GenOps(r, &c, ops, r.IntN(3), true)
 			check(run, c)
 		}
+	})
+}
+
+// deep: chains of more than 25 nested nodes (the iterators switch from a stack-allocated to a heap-allocated stack at
+// depth 25) and a node with more than 50 children, mutated by random histories.
+func deep(run *kit.Run) {
+	rounds := run.Pick(6, 60)
+	run.Parallel(rounds, func(b int) {
+		r := run.Rand(uint64(900000 + b))
+		c := hist.Case{Methods: hist.MethodPool[:2]}
+		p := ""
+		for i := 0; i < 34; i++ {
+			switch i % 5 {
+			case 3:
+				p += fmt.Sprintf("/{p%d}", i)
+			default:
+				p += "/" + string(rune('a'+i%26))
+			}
+			c.Pool = append(c.Pool, p)
+			if i%4 == 0 {
+				c.Pool = append(c.Pool, p+"/")
+				if !strings.HasSuffix(p, "}") {
+					c.Pool = append(c.Pool, p+"x")
+				}
+			}
+		}
+		const al = "0123456789ABCDEFGHIJKLMNOPQRSTUVWXYZabcdefghijklmnopqrstuvwxyz"
+		for i := 0; i < len(al); i++ {
+			c.Pool = append(c.Pool, "/fan/"+string(al[i])+"x")
+		}
+		c.Pool = append(c.Pool, "/fan/{p}", "/fan/*{c}")
+		hist.GenOps(r, &c, 260, r.IntN(3), false)
+		check(run, c)
+		run.Count("deep_chain_histories", 1)
 	})
 }
 
